@@ -67,6 +67,9 @@ def run(ctx):
         ok, cex = must_exit(f, s, {RXA: False}, targets={init})
         ctx.ob('C04.packet-end', 'USBHandshakeDetector.%s' % ('report-state' if s == R else 'state#%d' % f.states.index(s)), ok, f.state_loc[s],
                'state %s must return to idle when the packet ends: %s' % (s, cex))
+    for e in f.in_edges(init):
+        ctx.ob('C04.idle-only-at-packet-end', 'USBHandshakeDetector.state#%d->init' % f.states.index(e.src), (RXA, False) in q.atoms(e), e.loc,
+               'returning to idle while the packet is still in progress lets its remaining bytes be parsed as a new packet: %s' % q.fmt(e))
     ins = f.in_edges(R)
     ok = len(ins) == 1 and q.has(ins[0], PIDCHK) and q.has(ins[0], RXV) and ins[0].src in {e.dst for e in f.out_edges(init)}
     ctx.ob('C04.pid-check', 'USBHandshakeDetector.pid-edge', ok, ins[0].loc if ins else None,
